@@ -136,29 +136,54 @@ def json_copy(x):
     return json.loads(json.dumps(x))
 
 
+INVALID_EDITS = [
+    # (where, key, value) - one per validator family of the component classes
+    ("body", "group_by", ["no_such_column"]), ("body", "page_by", ["no_such_column"]),
+    ("body", "subline_by", ["no_such_column"]), ("body", "new_page!", True),
+    ("body", "text_color", "notacolour"), ("body", "text_background_color", [["notacolour"]]),
+    ("body", "text_font", [[1, 11]]), ("body", "text_font_size", [[-3]]), ("body", "text_format", [["q"]]),
+    ("body", "text_justification", [["x"]]), ("body", "border_left", [["wobbly"]]),
+    ("body", "cell_justification", [["x"]]), ("body", "pageby_row", "nowhere"), ("body", "col_rel_width", [0, -1]),
+    ("page", "border_first", "wobbly"), ("page", "page_title", "middle"), ("page", "orientation", "diagonal"),
+    ("page", "nrow", 0), ("page", "width", -1.0), ("page", "margin", [1, 1, 1]),
+    ("title", "text_justification", ["x"]), ("title", "text_font", [99]), ("title", "text_color", ["notacolour"]),
+    ("footnote", "text_font", [[42]]), ("footnote", "border_top", [["wobbly"]]),
+    ("source", "text_format", [["zz"]]), ("page_header", "text_font_size", [0]),
+    ("header", "text_color", [["notacolour"]]), ("header", "text_font", [[0]]),
+]
+
+
 def make_invalid(rng, rec: dict):
-    """A recipe whose construction is rejected (ValueError somewhere in a component
-    or document validator); which one is up to the reference."""
-    how = rng.choice(["group_col", "new_page", "bad_colour", "bad_border", "fig_table_footnote", "bad_format"])
-    if rec["kind"] == "figure":
-        rec["footnote"] = {"text": "x", "as_table": True}
+    """A recipe whose construction is (probably) rejected - ValueError somewhere in a
+    component or document validator; what exactly happens is up to the reference."""
+    if rec["kind"] == "figure" and rng.random() < 0.5:
+        if rng.random() < 0.5:
+            rec["footnote"] = {"text": "x", "as_table": True}
+        else:
+            rec["figure"]["kw"]["fig_align"] = "diagonal"
         return rec
-    if not rec.get("bodies"):
-        return None
-    b = rec["bodies"][0]
-    if how == "group_col":
-        b["group_by"] = ["no_such_column"]
-    elif how == "new_page":
-        b.pop("page_by", None)
-        b["new_page"] = True
-    elif how == "bad_colour":
-        b["text_color"] = "notacolour"
-    elif how == "bad_border":
-        rec["page"] = dict(rec.get("page") or {}, border_first="wobbly")
-    elif how == "bad_format":
-        b["text_format"] = [["q"]]
+    where, key, val = rng.choice(INVALID_EDITS)
+    if where == "body":
+        if not rec.get("bodies"):
+            return None
+        b = rec["bodies"][0]
+        if key == "new_page!":
+            b.pop("page_by", None)
+            b["new_page"] = True
+        else:
+            b[key] = val
+    elif where == "header":
+        if rec["kind"] == "figure":
+            return None
+        n = len(rec["dfs"][0]["cols"]) if rec.get("dfs") else 2
+        rec["headers"] = [{"text": ["h"] * n, key: val}] if rec["kind"] == "single" else \
+            [[{"text": ["h"] * len(f["cols"]), key: val}] for f in rec["dfs"]]
     else:
-        rec["title"] = {"text": "t", "text_justification": ["x"]}
+        comp = dict(rec.get(where) or ({"text": "t"} if where != "page" else {}))
+        comp[key] = val
+        if rec["kind"] == "figure" and where in ("footnote", "source"):
+            comp["as_table"] = False
+        rec[where] = comp
     return rec
 
 
@@ -464,19 +489,26 @@ def signature(v: dict) -> dict:
 
 
 class RefCache:
-    def __init__(self, figdir: str):
+    """References per recipe.  With `server` (a zygote under another
+    PYTHONHASHSEED) every run-vs-reference comparison also spans two hash seeds."""
+
+    def __init__(self, figdir: str, server=None):
         self.figdir = figdir
         self.cache: dict = {}
         self.computed = 0
+        self.server = server
 
-    def get(self, recipe: dict, want_text=False) -> dict:
+    def get(self, recipe: dict, want_text=False, local=False) -> dict:
         h = R.recipe_hash(recipe)
-        if not want_text and h in self.cache:
+        if not want_text and not local and h in self.cache:
             return self.cache[h]
-        ref = core.run_in_child(R.reference_worker,
-                                {"recipe": recipe, "figdir": self.figdir, "want_text": want_text})
+        arg = {"recipe": recipe, "figdir": self.figdir, "want_text": want_text}
+        if self.server is not None and not local:
+            ref = self.server.call("sim.recipes:reference_worker", arg)
+        else:
+            ref = core.run_in_child(R.reference_worker, arg)
         self.computed += 1
-        if not want_text:
+        if not want_text and not local:
             self.cache[h] = ref
         return ref
 
@@ -589,8 +621,12 @@ def replay_worker(arg) -> dict:
     boot.bootstrap()
     plan = arg["plan"]
     figdir = tempfile.mkdtemp(prefix="vreplay")
+    server = None
     try:
-        rc = RefCache(figdir)
+        if plan.get("hashseed"):
+            # the violation is a disagreement between two hash seeds: references from the other one
+            server = core.RefServer(int(plan["hashseed"]))
+        rc = RefCache(figdir, server)
         refs = rc.for_plan(plan)
         res = run_plan(plan, refs, figdir)
         vs = judge(plan, res, refs)
@@ -599,6 +635,8 @@ def replay_worker(arg) -> dict:
         return {"violations": vs, "signatures": [signature(v) for v in vs],
                 "log_digest": log_digest(res)}
     finally:
+        if server is not None:
+            server.close()
         shutil.rmtree(figdir, ignore_errors=True)
 
 
@@ -672,7 +710,10 @@ def _ws():
     if "refcache" not in _worker_state or _worker_state.get("pid") != os.getpid():
         figdir = tempfile.mkdtemp(prefix="vc14_")
         _worker_state.clear()
-        _worker_state.update(pid=os.getpid(), figdir=figdir, refcache=RefCache(figdir), minimised=0)
+        server = None
+        if os.environ.get("VERIF_NO_REFSERVER") != "1":
+            server = core.RefServer(core.other_hashseed(core.root_seed()))
+        _worker_state.update(pid=os.getpid(), figdir=figdir, refcache=RefCache(figdir, server), minimised=0)
     return _worker_state
 
 
@@ -696,6 +737,15 @@ def _handle_violation(ws, plan, refs, res, vs, idx, out, max_minimise):
             ref_text = None
     if ref_text is not None and v["class"] == "output_differs":
         v["class"] = diff_class(v["_text"], ref_text)
+    # was it the hash seed rather than the history?  (the reference came from another PYTHONHASHSEED)
+    if ws["refcache"].server is not None and v.get("recipe") is not None and v["op"] == "encode":
+        try:
+            local = ws["refcache"].get(frozen["recipes"][v["recipe"]], local=True)
+            if local["encode"] is not None and R.same_outcome(v["observed"], local["encode"]):
+                v["class"] = "hashseed_dependent"
+                frozen["hashseed"] = ws["refcache"].server.hashseed
+        except HarnessError:
+            pass
     v.pop("_text", None)
     out["violations"].append({"v": v, "sig": signature(v), "plan": frozen, "seed_idx": idx})
 
